@@ -179,7 +179,23 @@ func (n *lazyNode) tryAry() bool {
 	return true
 }
 
+// isNull reports whether the node is a JSON null: a nil node (a null decoded
+// inside a document or patch) or an unparsed node without text or with the text null.
+func (n *lazyNode) isNull() bool {
+	if n == nil {
+		return true
+	}
+	if n.which != eRaw {
+		return false
+	}
+	return n.raw == nil || bytes.Equal(n.compact(), []byte("null"))
+}
+
 func (n *lazyNode) equal(o *lazyNode) bool {
+	if n.isNull() || o.isNull() {
+		return n.isNull() && o.isNull()
+	}
+
 	if n.which == eRaw {
 		if !n.tryDoc() && !n.tryAry() {
 			if o.which != eRaw {
@@ -210,14 +226,6 @@ func (n *lazyNode) equal(o *lazyNode) bool {
 
 			if !ok {
 				return false
-			}
-
-			if (v == nil) != (ov == nil) {
-				return false
-			}
-
-			if v == nil && ov == nil {
-				continue
 			}
 
 			if !v.equal(ov) {
